@@ -331,6 +331,38 @@ def rule_rust(ctx):
     if sat:
         ctx.ok("R1", "satisfies_text_predicates:present", "QueryMatch::satisfies_text_predicates analysed (%d blocks)" % len(sat[0].blocks), nontrivial=False)
     rule_any_all(ctx, F)
+    rule_pairing(ctx, F)
+
+
+def rule_pairing(ctx, F):
+    """T2: `#eq? @a @b` pairs the nodes of the two captures and then checks that neither has nodes left over.  A node is
+    taken from one capture only when the other capture has a node to pair it with (both were peeked); taking first and
+    testing afterwards swallows the extra node of the longer capture, and the left-over check then passes for captures
+    whose node counts differ by one."""
+    import rsrules
+    from rsrules import text_gate, deep_text, calls_named
+    cl = [f for f in F.fn_list if "satisfies_text_predicates::{closure#0}" in f.name and f.name.count("{closure") == 1]
+    if len(cl) != 1:
+        return
+    fn = cl[0]
+    final = set()
+    for pt, c, d in calls_named(fn, "is_none"):
+        t = deep_text(fn, c["a"][0], user=True)
+        if "Iterator>::next(" in t:
+            final.add(t.split("Iterator>::next(")[1][:12])
+    takes = []
+    for pt, c, d in calls_named(fn, "Peekable", "::next"):
+        arg = deep_text(fn, c["a"][0], user=True)
+        if "nodes_" not in arg:
+            continue
+        # the calls that feed the final `.next().is_none()` left-over check are reads of the remainder, not pairings
+        fed = any(deep_text(fn, c2["a"][0], user=True).find("next(" + arg) >= 0 and fn.loc(p2) == fn.loc(pt) for p2, c2, d2 in calls_named(fn, "is_none"))
+        if not fed:
+            takes.append((pt, arg))
+    ctx.floor("nodes taken for pairing in the two-capture predicate", len(takes), 2)
+    pts = [pt for pt, a in takes]
+    text_gate(ctx, "T2", fn, pts, [("a node is taken from @a only if @b has one to pair it with", [(("is_some(", "peek(&nodes_1"), True)]),
+                                  ("…and from @b only if @a has one", [(("is_some(", "peek(&nodes_2"), True)])], accept_desc="taking a node for pairing")
 
 
 def rule_any_all(ctx, F):
@@ -439,6 +471,26 @@ def rule_limit_in_use(ctx, F):
             ctx.ok("L2", "capture_list_pool_is_empty:compares-with-the-limit", "capture_list_pool_is_empty is `%s`" % rets[0][:90], nontrivial=False)
         else:
             ctx.bad("L2", "capture_list_pool_is_empty:compares-with-the-limit", "capture_list_pool_is_empty no longer compares with max_capture_list_count")
+
+
+def rule_heap(ctx, F):
+    """H1: removing a finished match from the middle of the min-heap restores the heap in *both* directions.  The hole
+    is filled with the last element, which comes from an arbitrary subtree and may sort before the hole's parent; it then
+    has to move up, not down.  Otherwise next_capture hands out captures out of order (the highlighter then attributes a
+    reference's highlight to the wrong match or drops it)."""
+    fn = ctx.need_fn(F, "finished_state_erase", "H1")
+    if not fn:
+        return
+    up = [pt for pt, c in fn.calls() if callee_name(c) == "finished_state_sift_up"]
+    down = [pt for pt, c in fn.calls() if callee_name(c) == "finished_state_sift_down"]
+    key = "finished_state_erase:restores-heap-both-ways"
+    if not up or not down:
+        ctx.bad("H1", key, "finished_state_erase sifts the replacement element only %s: an element taken from the bottom of another subtree can sort before the hole's parent and must move up" % ("down" if down else "up" if up else "nowhere"))
+        return
+    ctx.ok("H1", key, "finished_state_erase calls both finished_state_sift_up and finished_state_sift_down")
+    ctx.gate("H1", fn, down, [("the replacement moves down only if it does not sort before its parent (or is the root)",
+                              [("finished_state_precedes(_, _, pool)", False), ("index > 0", False), ("index == 0", True)])], accept_desc="sifting the replacement down")
+    ctx.gate("H1", fn, up, [("…and up only if it does", "finished_state_precedes(_, _, pool)", True)], accept_desc="sifting the replacement up")
 
 
 def rule_definite(ctx, F):
@@ -587,6 +639,7 @@ def run(ctx):
         rule_definite(ctx, F)
         rule_both_units(ctx, F)
         rule_limit_in_use(ctx, F)
+        rule_heap(ctx, F)
     rule_rust(ctx)
     return ctx.finish(
         "Pairing and field-coverage rules over query.c: every discard of a query state under capture-list-pool exhaustion is preceded by "
